@@ -47,5 +47,41 @@ def main():
                     pw[other] = "ERR " + type(e).__name__
             r["pairs"] = pw
         out.append(r)
+    # ---- a second data set in the same process: other days-per-year, some other half-lives
+    if req.get("second_dataset"):
+        import copy
+        from fractions import Fraction
+        d2 = copy.deepcopy(d)
+        d2.dataset_name = "verif_copy"
+        d2.float_year_conv = 365.25
+        d2.hldata = copy.deepcopy(d2.hldata)
+        changed = {}
+        for k in req["second_dataset"]:
+            i = d2.nuclide_dict[k]
+            hl, unit, rs = d2.hldata[i]
+            d2.hldata[i] = (float(hl) * 2.0, unit, rs)
+            changed[k] = True
+        sec = {"ps": Fraction(1, 10**12), "ns": Fraction(1, 10**9), "us": Fraction(1, 10**6), "ms": Fraction(1, 1000), "s": 1, "m": 60, "h": 3600,
+               "d": 86400, "y": 86400, "ky": 86400 * 10**3, "My": 86400 * 10**6}
+        res2 = []
+        probe = req["second_dataset"] + req.get("second_probe", [])
+        for rounds in range(2):
+            for k in probe:
+                for u in ("s", "y", "ky", "d"):
+                    a = d.half_life(k, u)          # default first (fills any cache)
+                    b = d2.half_life(k, u)
+                    b2 = rd.Nuclide(k, d2).half_life(u)
+                    c = d.half_life(k, u)          # default again
+                    # expected from each data set's own stored half-life
+                    def expect(ds):
+                        hl, unit, _ = ds.hldata[ds.nuclide_dict[k]]
+                        if float(hl) == float("inf"): return float("inf")
+                        f = Fraction(float(hl)) * Fraction(sec.get(str(unit), 0) if str(unit) != "\u03bcs" else Fraction(1, 10**6))
+                        if str(unit) in ("y", "ky", "My"): f *= Fraction(float(ds.float_year_conv))
+                        g = Fraction(sec[u]) * (Fraction(float(ds.float_year_conv)) if u in ("y", "ky") else 1)
+                        return float(f / g)
+                    res2.append({"nuc": k, "unit": u, "default": float(a), "copy": float(b), "copy_nuclide": float(b2), "default_again": float(c),
+                                 "expect_default": expect(d), "expect_copy": expect(d2)})
+        out.append({"second": res2})
     json.dump(out, sys.stdout)
 main()
